@@ -657,8 +657,18 @@ class Evaluator:
         return st
 
     def _havoc(self, st, hav_a, hav_l, lid):
+        # a local bound to the very object an attribute holds keeps denoting that object across the iterations
+        alias = {}
+        if self.recv is not None and hav_a:
+            for name, lv in st.locs.items():
+                if name not in hav_l and isinstance(lv, R):
+                    fld = self._alias_of_attr(lv, st)
+                    if fld in hav_a:
+                        alias[name] = fld
         for k in hav_a:
             st.attrs[k] = atom(("loopvar", lid, k))
+        for name, fld in alias.items():
+            st.locs[name] = st.attrs[fld]
         for k in hav_l:
             if k in st.locs:
                 st.locs[k] = atom(("loopvar", lid, "$" + k))
@@ -822,8 +832,9 @@ class Evaluator:
     def _alias_of_attr(self, v, st):
         """field name when the local value v IS the (mutable) object currently held by a self attribute, else None"""
         a = v.single_atom() if isinstance(v, R) else None
-        if a is not None and a[0] == "call":
-            # an array / container built by a library call: only the very object the attribute holds (identity of the term object)
+        if a is not None and a[0] in ("call", "ite"):
+            # an array / container built by a library call, or a conditionally initialised one: only the very object the
+            # attribute holds (identity of the term object)
             for k, val in st.attrs.items():
                 if val is v:
                     return k
